@@ -117,7 +117,13 @@ fn compress(input: PathBuf, output: PathBuf, level: u8) -> color_eyre::Result<()
         }
     };
     let source_file = File::open(input).wrap_err("failed to open input file")?;
-    let source_size = source_file.metadata()?.len() as usize;
+    let source_metadata = source_file.metadata()?;
+    // Opening a directory succeeds, but reading from it fails, which the library can only answer with a panic
+    // after the output file has already been created
+    if source_metadata.is_dir() {
+        return Err(eyre!("input is a directory, only single files can be compressed"));
+    }
+    let source_size = source_metadata.len() as usize;
     let buffered_source = BufReader::new(source_file);
     let encoder_input = ProgressMonitor::new(buffered_source, source_size);
     let output: File = File::create(output).wrap_err("failed to open output file for writing")?;
